@@ -91,6 +91,11 @@ type model struct {
 	// ignoreWindow makes admissible() treat every stickiness window as
 	// open (only used to classify a violation).
 	ignoreWindow bool
+	// loosePrio makes childInfos() attribute to a child invocation the
+	// priorities of ALL operations queued below it instead of the priority
+	// of the operation it would hand out next (only used to classify a
+	// violation).
+	loosePrio bool
 	// violations detected while updating the model are reported through fail.
 	fail func(prop, fp, format string, args ...any)
 }
@@ -463,7 +468,16 @@ func (m *model) childInfos(pq *mPq, q *mScq, path []string, childSet map[string]
 		cp := append(append([]string(nil), path...), c.key)
 		c.e = m.execCount(q, cp) + 1
 		seen := map[int32]bool{}
-		for _, t := range m.admissible(pq, q, nil, cp, false) {
+		cands := m.admissible(pq, q, nil, cp, false)
+		if m.loosePrio {
+			cands = nil
+			for _, t := range q.queued {
+				if hasPrefixPath(t.path, cp) {
+					cands = append(cands, t)
+				}
+			}
+		}
+		for _, t := range cands {
 			if !seen[t.prio] {
 				seen[t.prio] = true
 				c.prios = append(c.prios, t.prio)
@@ -812,6 +826,16 @@ func (m *model) received(w *mWorker, hash, suffix string) {
 				kind = fmt.Sprintf("stickiness-ignored/level%d", level)
 			} else if in(always) {
 				kind = fmt.Sprintf("stickiness-outside-window/level%d", level)
+			} else {
+				m.loosePrio = true
+				loose := m.admissible(pq, q, w, nil, true)
+				m.loosePrio = false
+				if in(loose) {
+					// Explained by scoring a nested invocation with the
+					// priority of another of its queued operations than
+					// the one it would hand out next.
+					kind = "nested-priority-not-of-next-operation"
+				}
 			}
 			m.fail("C04", "order/"+kind, "worker %s (last served %v, stickiness started %v ago, limits %v) received %s#%s (invocation %v prio %d dur %v queued@%v), but the documented policy prescribes one of %v; queue: %s",
 				w.name, w.lastPath, m.ages(w.stick), pq.limits, t.letter, t.hash[:6], t.path, t.prio, t.dur, t.queuedAt.Sub(m.start), names, m.dumpQueue(q))
